@@ -68,6 +68,13 @@ def run(ck, m):
     refusal_not_replicated(ck, m)
     snapshot_names_precedence(ck, m)
     database_created_once(ck, m)
+    same_derivation_rule(ck, m)
+    # every secondary is sent every message: the fan-out registers the expected acknowledgement and then sends, per member, with no
+    # other condition (C14.d, repeated: a member skipped because "it still owes an ack for the same text" misses an operation for good)
+    from nl import alias as _alias4
+    ck.rule('C04.n', 'the fan-out sends every message to every member it is meant for: registration of the expected acknowledgement and send of the '
+                     'registered text, per member, unconditionally (C14.d, repeated)')
+    _alias4.repeat(ck, m, 'C14', ('C14.d',), 'C04.n', floor=2, key_filter=lambda k: 'register-before-send' in k)
 
 
 def _run(ck, m):
@@ -695,3 +702,114 @@ def database_created_once(ck, m):
                   'insert replaces the first database, both answer Ok and both are replicated — the secondaries keep the first (they refuse the '
                   'second), so the database token differs between the nodes for good' % short(b.id), b.loc(bi))
     ck.floor('C04.m', n, 1, 'inserts into the shared Databases.map')
+
+
+_STR_TRANSFORMS = frozenset(('to_lowercase', 'to_uppercase', 'to_ascii_lowercase', 'to_ascii_uppercase', 'trim', 'trim_start', 'trim_end', 'trim_matches',
+                             'trim_start_matches', 'trim_end_matches', 'replace', 'replacen', 'strip_prefix', 'strip_suffix', 'repeat', 'split', 'splitn',
+                             'rsplit', 'rsplitn', 'split_whitespace', 'split_once', 'chars', 'rev', 'truncate', 'get', 'get_unchecked', 'index'))
+
+
+def _field_transforms(m, body, region, req_adt='bo::Request', skip=()):
+    """{(variant, field): {crate-local String-returning functions applied to it}} for every string argument of a crate-local call made
+    in `region` of `body` and in the closures created there; the chain is followed from the argument back to a field of the request
+    (through captures of closures, look-through calls such as to_string / clone, and nested crate-local calls)"""
+    P = m.prog
+    out = {}
+
+    def parent_operand(cb, idx):
+        pb = P.bodies.get(cb.parent) if cb.parent else None
+        if pb is None:
+            return None, None
+        for bl in pb.blocks:
+            for s in bl['s']:
+                if s['k'] == 'assign' and s['r']['k'] == 'agg' and s['r'].get('ak') == 'closure' and s['r'].get('def') == cb.id and idx < len(s['r']['ops']):
+                    return pb, s['r']['ops'][idx]
+        return None, None
+
+    def walk(b, operand, chain, depth, seen):
+        if depth > 8:
+            return
+        for r in origins(b, operand, stop_at_calls=True):
+            key = (b.id, r[:2], chain)
+            if key in seen:
+                continue
+            seen.add(key)
+            path = r[-1] if isinstance(r[-1], tuple) else ()
+            var = [s_[1] for s_ in path if s_[0] == 'd']
+            flds = [s_[2] for s_ in path if s_[0] == 'f' and str(s_[3]).endswith(req_adt)]
+            if var and flds:
+                # a field of a Request value (the parameter itself, or a copy of it made by a call)
+                out.setdefault((var[0], flds[0]), set()).update(chain)
+                continue
+            if r[0] == 'capture':
+                pb, op2 = parent_operand(b, r[1])
+                if pb is not None:
+                    walk(pb, op2, chain, depth + 1, seen)
+            elif r[0] == 'call':
+                t = b.term(r[1])
+                cb_ = P.bodies.get(callee(t))
+                if cb_ is None or is_log(t):
+                    # a std call that is not looked through (format machinery): follow every argument; a std string transformation
+                    # (a helper spliced back by inline.py leaves only these) counts like a named function
+                    last = callee_decl(t).split('::')[-1]
+                    ch1 = chain + (('str::' + last,) if last in _STR_TRANSFORMS else ())
+                    for a in t['args']:
+                        walk(b, a, ch1, depth + 1, seen)
+                    continue
+                if callee(t) in skip:
+                    continue
+                ch2 = chain + ((short(callee(t)),) if core.is_str_ty(cb_.locals[0]) else ())
+                for a in t['args']:
+                    walk(b, a, ch2, depth + 1, seen)
+
+    fam = [(body, region)]
+    for x in sorted(region):
+        for s in body.blocks[x]['s']:
+            if s['k'] == 'assign' and s['r']['k'] == 'agg' and s['r'].get('ak') == 'closure' and s['r']['def'] in P.bodies:
+                cb = P.bodies[s['r']['def']]
+                fam.append((cb, set(cb.reachable())))
+    for b, reg in fam:
+        for x in sorted(reg):
+            t = b.term(x)
+            if t['k'] != 'call' or is_log(t) or P.bodies.get(callee(t)) is None:
+                continue
+            for a in t['args']:
+                p_ = a.get('m') or a.get('c')
+                if p_ is None or not core.is_str_ty(b.locals[p_['l']]):
+                    continue
+                walk(b, a, (), 0, set())
+    return out
+
+
+def same_derivation_rule(ck, m, rule='C04.o'):
+    """C04.o — see RULES"""
+    ck.rule(rule, 'what is replicated is what was applied: a field of the request that the handler arm transforms before it uses it (a key built '
+                  'from a user name, a value rendered from a permission list) is transformed by the SAME functions in the arm of the replication '
+                  'table, which rebuilds the message from the raw request — a normalisation added on one side only (lower-casing, trimming) makes '
+                  'the primary store one key and every secondary another')
+    P = m.prog
+    d, sw = m.dispatcher()
+    rb, rsw = m.replication_table()
+    from props.C07 import templates_in
+    builders = {b.id for b in P.user_bodies() if b.kind in ('fn', 'method') and core.is_str_ty(b.locals[0])
+                and any(wire.first_word(f) for _, f in templates_in(m, b))}
+    n = 0
+    for v in sorted(sw[1]):
+        if v not in rsw[1] or rsw[1][v] == rsw[2]:
+            continue
+        dreg = m.arm_region(d, sw, v)
+        rreg = m.arm_region(rb, rsw, v)
+        if not dreg or not rreg:
+            continue
+        dt = _field_transforms(m, d, dreg, skip=builders)
+        rt = _field_transforms(m, rb, rreg, skip=builders)
+        for (var, fld) in sorted(set(dt) & set(rt)):
+            if var != v:
+                continue
+            n += 1
+            a, b_ = dt[(var, fld)], rt[(var, fld)]
+            ck.ob(rule, 'dispatcher', '%s.%s:same-derivation' % (v, fld), a == b_,
+                  'handler and replication table apply %s to %s.%s' % (sorted(a) or 'nothing', v, fld) if a == b_ else
+                  'the handler applies %s to %s.%s, the replication table %s: the message the other nodes receive is built from a different '
+                  'string than the one stored here' % (sorted(a) or 'nothing', v, fld, sorted(b_) or 'nothing'), d.loc(sw[1][v]))
+    ck.floor(rule, n, 4, 'request fields used by both a handler arm and its replication arm')
